@@ -1316,6 +1316,8 @@ class FnEval:
                     return False, "position in coordinate frame %s where frame %s is required (unique-list / word-" \
                                   "lookup index used as an original index, or vice versa)" % (fg, fw), False
                 if sg is None and sw in ("O", "N"):
+                    if isinstance(got[4], tuple) and got[4][:1] == ("mixed",):
+                        return False, "position that is old-side on one path and new-side on another", False
                     return False, "position of unknown side", True
                 return True, "", False
             if kw == LEN:
@@ -2244,7 +2246,12 @@ def _unx(av, depth=0):
         return av
     t = av[0]
     if t == "S":
-        return ("S", av[1], None if av[2] == "X" else av[2], None if av[3] == "X" else av[3], av[4])
+        # a value that was old-side on one path and new-side on another has no side -- but it is not an *unknown* value:
+        # remember that it is a mixture (a position of mixed sides handed to a one-sided slot is a definite finding)
+        tag = av[4]
+        if av[2] == "X" and av[1] == POS and tag is None:
+            tag = ("mixed",)
+        return ("S", av[1], None if av[2] == "X" else av[2], None if av[3] == "X" else av[3], tag)
     if t == "R":
         return ("R", _unx(av[1], depth + 1), _unx(av[2], depth + 1))
     if t == "T":
